@@ -290,9 +290,12 @@ class FileProxy:
                 except Exception:
                     pass
             raise fault
-        r = f()
-        if close:
-            pass
+        try:
+            r = f()
+        except Exception as e:      # noqa  (e.g. ValueError: flush of a file the body closed itself)
+            ip.events[idx]['error'] = getattr(e, 'errno', None) or type(e).__name__
+            ip._after(idx)
+            raise
         ip._after(idx)
         return r
 
